@@ -176,6 +176,12 @@ class Judge:
                     self.viol("grow-wrong-amount", f"grow({ev['n']}): {ev['cap0']}->{ev['cap1']}")
                 self.sh.grow_to(ev["cap1"])
         # ---------------- after every event
+        self.audit()
+
+    def audit(self):
+        """Checks at a quiescent point (after every event of this buffer, and after events of a buffer that was
+        obtained from this one by copying)."""
+        w, buf = self.w, self.buf
         if self.bad:
             return
         if self.do04 and self.stamps:
@@ -186,17 +192,71 @@ class Judge:
             for rid, (o, s) in self.regions.items():
                 w.count("stamp_checks")
                 if raw[o:o + s] != stamp(rid, s):
-                    self.viol("live-data-lost", f"bytes of live region [{o},{o + s}) changed after {self.hist[-1]}")
+                    self.viol("live-data-lost", f"bytes of live region [{o},{o + s}) changed after {self.hist[-1:]}")
                     break
         if self.do12:
             w.count("get_free_checks")
             gf = buf.get_free()
             if gf != self.sh.total_free():
-                self.viol("get_free-wrong", f"get_free()={gf}, spec: capacity {buf.capacity} - live {sum(self.sh.live.values())} - lost {self.sh.lost} = {self.sh.total_free()} after {self.hist[-1]}")
+                self.viol("get_free-wrong", f"get_free()={gf}, spec: capacity {buf.capacity} - live {sum(self.sh.live.values())} - lost {self.sh.lost} = {self.sh.total_free()} after {self.hist[-1:]}")
             elif hasattr(buf, "chunks"):
                 ch = [[c.start, c.end] for c in buf.chunks if c.end > c.start]
                 if ch != self.sh.free:
-                    self.viol("free-list-differs-from-spec", f"chunks={ch} spec={self.sh.free} after {self.hist[-1]}")
+                    self.viol("free-list-differs-from-spec", f"chunks={ch} spec={self.sh.free} after {self.hist[-1:]}")
+
+
+def fork_judge(j, rng):
+    """A second buffer obtained from j.buf by copy.deepcopy / a pickle round trip, with a judge that starts from the
+    copied state: same live regions (the stamps must have come along), and as free space whatever the copy reports,
+    provided it is consistent (inside the capacity, sorted, disjoint from every live region).  Both buffers are
+    then driven further; each must behave as a buffer of its own."""
+    import copy
+    import pickle
+    how = rng.choice(["deepcopy", "pickle0", "pickle2", "pickle5"])
+    w = j.w
+    try:
+        if how == "deepcopy":
+            b2 = copy.deepcopy(j.buf)
+        else:
+            b2 = pickle.loads(pickle.dumps(j.buf, protocol=int(how[6:])))
+    except Exception as e:  # noqa
+        j.viol(f"buffer-copy-raises:{type(e).__name__}", f"{how}: {e}")
+        return None
+    w.count("buffers_copied")
+    w.count("buffers_copied:" + how)
+    cfg = dict(j.cfg, copied_by=how)
+    j2 = Judge(w, b2, cfg, j.do04, j.do12, stamps=j.stamps)
+    j2.regions = dict(j.regions)
+    j2.next_rid = j.next_rid + 1000
+    j2.hist = list(j.hist[-12:]) + [("copied", how)]
+    sh = Shadow(b2.capacity)
+    sh.live = {o: s_ for (o, s_) in j.regions.values()}
+    free = [[c.start, c.end] for c in getattr(b2, "chunks", []) if c.end > c.start]
+    ok = all(0 <= a < b <= b2.capacity for a, b in free) and all(free[i][1] < free[i + 1][0] or free[i][1] <= free[i + 1][0] for i in range(len(free) - 1))
+    for a, b in free:
+        for o, s_ in j.regions.values():
+            if a < o + s_ and o < b:
+                ok = False
+    if b2.capacity < max([o + s_ for o, s_ in j.regions.values()] + [0]):
+        ok = False
+    if not ok:
+        j2.viol("copied-buffer-inconsistent", f"{how}: capacity={b2.capacity} free={free} live={sorted(j.regions.values())}")
+        return j2
+    # adjacent free chunks are merged the way the spec keeps them
+    merged = []
+    for a, b in free:
+        if merged and merged[-1][1] == a:
+            merged[-1][1] = b
+        else:
+            merged.append([a, b])
+    if merged != free and j.do12:
+        j2.viol("copied-buffer-free-list-not-coalesced", f"{free}")
+        return j2
+    sh.free = merged
+    sh.lost = b2.capacity - sum(sh.live.values()) - sh.total_free()
+    j2.sh = sh
+    j2.audit()
+    return j2
 
 
 def pick_size(rng, buf, sh):
@@ -229,8 +289,20 @@ def random_history(w, rng, do04, do12):
     j = Judge(w, buf, cfg, do04, do12)
     nops = rng.randint(5, 80)
     opk = []
+    fork_at = rng.randint(2, nops) if rng.random() < 0.2 else None
+    js = [j]
+    j0 = j
     try:
-        for _ in range(nops):
+        for step in range(nops):
+            if step == fork_at and len(js) == 1 and not j0.bad:
+                j2 = fork_judge(j0, rng)
+                if j2 is not None:
+                    js.append(j2)
+                opk.append("C")
+                if any(x.bad for x in js):
+                    break
+            j = rng.choice(js)
+            buf = j.buf
             r = rng.random()
             if r < 0.015:
                 # a request that cannot possibly be served; the caller catches the error and carries on
@@ -261,12 +333,21 @@ def random_history(w, rng, do04, do12):
             else:
                 buf.grow(rng.choice([0, 1, 8, 13, 64]))
                 opk.append("g")
-            if j.bad:
+            if len(js) > 1:
+                # what happens to one buffer must not show in the other one
+                for x in js:
+                    if x is not j:
+                        w.count("audits_of_the_other_buffer")
+                        x.audit()
+            if any(x.bad for x in js):
                 break
     finally:
-        j.close()
+        for x in js:
+            x.close()
+    j = j0
+    buf = j0.buf
     w.count("histories")
-    w.count("events", len(j.hist))
+    w.count("events", sum(len(x.hist) for x in js))
     sig = dict(kind=kind, cap=min(cap, 300) // 8, al=al, gs=gs, n=nops // 10,
                ops="".join(opk[:12]))
     w.case(sig, sample=dict(cfg=cfg, history=j.hist[:14]) if len(j.hist) > 6 else None)
